@@ -271,7 +271,7 @@ class LoopSpec:
 class FnContract:
     def __init__(self, name, regions=None, nullable=(), logical=None, requires=None, ensures=None, modifies=(), loops=None,
                  inline=False, configs=None, alloc_result=None, escapes=(), defs=None, shape=None, frees=(), ghost_updates=None,
-                 abstract=False, pure=False, result_name=None, note=None, allocates=False, replay=True, lemmas=None):
+                 abstract=False, pure=False, result_name=None, note=None, allocates=False, replay=True, lemmas=None, params=None, ret=None):
         self.name = name
         self.regions = dict(regions or {})      # pointer parameter -> 'u8[expr]' | 'u32[16]' | 'struct' | 'cell' | shape object
         self.nullable = set(nullable)
@@ -290,6 +290,9 @@ class FnContract:
         self.note = note
         self.allocates = allocates
         self.replay = replay
+        if params is not None:
+            self.params = list(params)     # abstract callee: parameter names
+        self.ret = ret
         self.lemmas = dict(lemmas or {})    # ghost assertions at every return: proved (locals visible), then assumed for `ensures`
 
 
@@ -359,6 +362,16 @@ def _split_top(text, sep_re):
     return parts, ops
 
 
+_FOR_IN = re.compile(r'\bfor\s+(\w+)\s+in\b')
+
+
+def _c_idents(text):
+    """C identifiers that are Python keywords (`in`): `in[k]` -> `in_[k]`; the generator keyword `for k in` is kept"""
+    text = _FOR_IN.sub(lambda m: 'for %s \x00' % m.group(1), text)
+    text = re.sub(r'\bin\b', 'in_', text)
+    return text.replace('\x00', 'in')
+
+
 def _desugar(text):
     """rewrite `a ==> b` / `a <==> b` (top level, inside parentheses, inside generator bodies and call arguments)
     into implies(a, b) / iff(a, b); right associative, lowest precedence"""
@@ -425,7 +438,7 @@ class Translator:
 
     def expr(self, text):
         try:
-            tree = ast.parse(_desugar(text.strip()).strip(), mode="eval")
+            tree = ast.parse(_desugar(_c_idents(text.strip())).strip(), mode="eval")
         except SyntaxError as ex:
             raise ClauseError('clause syntax: %s in %r' % (ex, text))
         return self.ev(tree.body)
@@ -471,7 +484,9 @@ class Translator:
             return z3.BoolVal(True)
         if n.id == 'False':
             return z3.BoolVal(False)
-        return self.ctx.lookup(n.id, self.old)
+        if n.id == 'NULL':
+            return self.ctx.null()
+        return self.ctx.lookup('in' if n.id == 'in_' else n.id, self.old)
 
     def ev_BoolOp(self, n):
         vs = [self.as_bool(self.ev(v)) for v in n.values]
@@ -488,9 +503,14 @@ class Translator:
         raise ClauseError('unary operator %s (use a cast helper)' % type(n.op).__name__)
 
     def ev_BinOp(self, n):
-        a = self.as_tv(self.ev(n.left))
-        b = self.as_tv(self.ev(n.right))
+        a = self.ev(n.left)
+        b = self.ev(n.right)
         op = type(n.op).__name__
+        if self.ctx.is_ptr(a) and op in ('Add', 'Sub'):
+            d = to_index(self.as_tv(b))
+            return self.ctx.ptr_add(a, d if op == 'Add' else -d)
+        a = self.as_tv(a)
+        b = self.as_tv(b)
         if op == 'Add':
             return tv_add(a, b)
         if op == 'Sub':
@@ -667,7 +687,7 @@ class Translator:
         raise ClauseError('unknown function %s in clause' % f)
 
     def expr_nested(self, text):
-        tree = ast.parse(_desugar(text.strip()).strip(), mode="eval")
+        tree = ast.parse(_desugar(_c_idents(text.strip())).strip(), mode="eval")
         return self.ev(tree.body)
 
     def _lit(self, node):
